@@ -24,7 +24,7 @@ def days_in_month(y, m):
 
 def random_record(rng, fmt):
     boundary = rng.random() < 0.35
-    y = rng.choice([1960, 1969, 1970, 1999, 2000, 2010, 2019, 2020, 2024, 2037, 2038, 2099]) if boundary else rng.randint(1950, 2099)
+    y = rng.choice([1960, 1969, 1970, 1999, 2000, 2010, 2019, 2020, 2024, 2037, 2038, 2099, 2004, 1987, 1978, 1952]) if boundary else rng.randint(1950, 2099)
     if fmt in ('ndk', 'ingv_horus') and y < 1970 and False:
         y += 50
     mo = rng.choice([1, 2, 3, 12]) if boundary else rng.randint(1, 12)
@@ -33,6 +33,10 @@ def random_record(rng, fmt):
     mi = rng.choice([0, 59]) if boundary else rng.randint(0, 59)
     s = rng.choice([0, 59]) if boundary else rng.randint(0, 59)
     ms = rng.choice([0, 1, 500, 999]) if boundary else rng.randint(0, 999)
+    if y in (2004, 1987, 1978, 1952, 2038):
+        # (years in which the count of seconds since 1970 has just passed a power of two: a double holds it with the coarsest
+        #  fraction of its binade, so every millisecond value is tried, not only the round ones)
+        ms = rng.randint(1, 999)
     off = 0
     if fmt == 'jma-csv':
         off = rng.choice([540, 540, 0, -300, 330])
